@@ -127,6 +127,7 @@ def rw_underscore_params(sig):
 REWRITES_DOC = {
     'R2': '`*X.get_unchecked(i)` -> `X[i]`: same value when i is in bounds; the bounds obligation IS the safety obligation',
     'R3': 'parameter pattern `_: T` -> `_pN: T` (Verus rejects `_` patterns)',
+    'R7': 'generic container parameter `T: Index<usize, Output = u64>` of bits::read_int/write_int instantiated at Vec<u64>',
     'R5': '`for p in E { B }` -> `let mut __it = E; loop { match __it.next() { Some(p) => { B } None => break } }` (reference desugaring)',
     'R8': 'struct fields widened to pub inside the unit',
     'R1': 'doc comments / #[inline] / derives dropped',
@@ -265,7 +266,27 @@ def weave_fn(src, container, name, nth, opts, subs, mode, sig_only=False):
         b = Body(text)
         bo = b.body_open() if not sig_only else -1
         sig_end = bo if bo >= 0 else len(text)
-    assert text.count('\n') == raw.count('\n') or sig_only
+
+    # R7: instantiate a generic container parameter (//@inst T Vec<u64>)
+    for kind, arg, lines in subs:
+        if kind == 'inst':
+            tv, ty = arg.split(None, 1)
+            sig0 = text[:sig_end]
+            sig1 = re.sub(r'<\s*' + re.escape(tv) + r'\s*:[^>]*>(\s*)>?', '', sig0, count=1) if re.search(r'<\s*' + re.escape(tv) + r'\s*:[^()]*>\s*\(', sig0) else sig0
+            # the generic list may contain nested <...>: remove from '<T:' to the '(' that opens the parameter list
+            mm = re.search(r'<\s*' + re.escape(tv) + r'\s*:', sig0)
+            if mm:
+                po = sig0.index('(', mm.end())
+                sig1 = sig0[:mm.start()] + sig0[po:]
+            sig1 = re.sub(r'(&\s*(?:mut\s+)?)' + re.escape(tv) + r'\b', lambda m_: m_.group(1) + ty.strip(), sig1)
+            if sig1 == sig0:
+                raise Undecided('R7: nothing to instantiate in %s::%s' % (container, name))
+            text = sig1 + text[sig_end:]
+            rewrites['R7'] = 1
+            b = Body(text)
+            bo = b.body_open() if not sig_only else -1
+            sig_end = bo if bo >= 0 else len(text)
+    r7_text = text
 
     stub = (mode == 'stub') or opts.get('status') == 'A'
     spec_lines = []
@@ -274,6 +295,8 @@ def weave_fn(src, container, name, nth, opts, subs, mode, sig_only=False):
     # collect sub-directives
     for kind, arg, lines in subs:
         body_text = '\n'.join(lines)
+        if kind == 'inst':
+            continue
         if kind == 'ret':
             ret = arg.strip()
         elif kind == 'spec':
